@@ -247,6 +247,9 @@ func c17ifaces() [][]c17if {
 		{eth0()},                            // no address at all
 		{eth0("10.0.0.5/24"), eth1("fe80::2/64", "10.0.1.5/24"), tun0("10.8.0.2/24")},
 		{eth0("10.0.0.5/24"), eth1("169.254.10.1/16")}, // an IPv4 link-local subnet is a subnet like any other
+		// a lower-index interface on a wider network that also contains the target, while --iface names an
+		// interface that holds the target's subnet as its SECOND address: its own address on that subnet is the source
+		{eth0("10.0.0.5/16"), eth1("172.16.0.2/24", "10.0.1.5/24")},
 	}
 }
 
